@@ -1290,6 +1290,12 @@ func (b *beacon) ReindexExpiration(treasures []treasure.Treasure) {
 			continue
 		}
 		b.treasuresByOrder = append(b.treasuresByOrder, t)
+		// Keep the key map in step with the ordered slice. Add() de-duplicates
+		// through the map only: a SaveFunction expiry re-index (Delete, then Add)
+		// that straddles this call would otherwise append the key a second
+		// time, and Delete() removes a single slice entry — the surplus one
+		// outlives the record (a deleted treasure stays claimable).
+		b.treasuresByKeys[t.GetKey()] = t
 	}
 	// Mirror SortByExpirationTimeAsc's comparator. We always sort
 	// ascending here because callers of SelectExpiredForPatch use the
